@@ -508,7 +508,7 @@ func report(s *Session, prop, tier string, seed int, vcs []*FuncVC, filter func(
 	var obls []evObl
 	total, discharged, covers := 0, 0, 0
 	var violations []string
-	var engineErrs []string
+	engineErrs := []string{}
 	notes := map[string]bool{}
 	funcs := map[string]string{}
 	solverMs := map[string]int64{}
@@ -592,7 +592,7 @@ func report(s *Session, prop, tier string, seed int, vcs []*FuncVC, filter func(
 	}
 	sort.Strings(trusted)
 	trusted = append(trusted, "go/ssa lowering (x/tools v0.29.0), SMT solvers z3 4.8.12 / z3 5.1.0 / cvc5 1.0", "prelude axioms in /verif/spec/prelude.smt2", "int is 64 bits; slice capacities <= 2^56; termination not verified")
-	var assumptions []string
+	assumptions := []string{}
 	for n := range notes {
 		assumptions = append(assumptions, n)
 	}
